@@ -181,7 +181,46 @@ fn sequential_runs(sc: &ParScenario, out: &mut impl Write) {
     rec(sc, &mut vec![0; n], &mut vec![], out);
 }
 
+/// uninstrumented, for `shared=1` scenarios: `reps` rounds, each with a fresh mock that all threads call through ONE
+/// `&Unimock` (so they also share its value chain), released together by a barrier
+fn stress_shared(sc: &ParScenario, reps: usize, out: &mut impl Write) {
+    let n = sc.threads.len();
+    let mut total = 0;
+    let mut hist = std::collections::BTreeMap::new();
+    let mut last_fin = String::new();
+    for _ in 0..reps {
+        let orig = new_mock(sc);
+        let barrier = std::sync::Barrier::new(n);
+        let results: Vec<Vec<String>> = std::thread::scope(|scope| {
+            let mut hs = vec![];
+            for t in 0..n {
+                let u = &orig;
+                let b = &barrier;
+                let calls = sc.threads[t].clone();
+                hs.push(scope.spawn(move || {
+                    b.wait();
+                    calls.iter().map(|(m, a)| match catch(|| call_method(u, *m, *a)) {
+                        Caught::Ok(v) => format!("ret:{v}"),
+                        Caught::User => "user".into(),
+                        Caught::Msg(_) => "panic".into(),
+                    }).collect::<Vec<_>>()
+                }));
+            }
+            hs.into_iter().map(|h| h.join().unwrap()).collect()
+        });
+        for r in results { for o in r { *hist.entry(o).or_insert(0) += 1; total += 1; } }
+        let mut none: Vec<Vec<String>> = vec![];
+        last_fin = finalize(orig, &mut none);
+    }
+    let h: Vec<String> = hist.iter().map(|(k, v)| format!("{k}x{v}")).collect();
+    let fin_short: String = last_fin.chars().take(400).collect();
+    writeln!(out, "stress calls={} hist={} {}", total, h.join(","), fin_short).unwrap();
+}
+
 fn stress(sc: &ParScenario, reps: usize, out: &mut impl Write) {
+    if sc.shared {
+        return stress_shared(sc, reps, out);
+    }
     // uninstrumented: every thread repeats its call list `reps` times on its own clone
     let orig = new_mock(sc);
     let n = sc.threads.len();
